@@ -222,6 +222,7 @@ fn base_event(st: &Step, nb: u8, cf: &str, dbg: bool, x: &AnyBv, pre: &State, yd
 }
 
 fn run_step(x: &mut AnyBv, st: &Step) -> (Out, Bits, Value, Vec<AnyBv>) {
+    crate::progress::set_current(json!({"op": st.op, "f": st.f, "x": {"k": x.kind().name(), "b": x.bits()}, "y": format!("{:?}", st.y), "a": st.a.to_json()}).to_string());
     let (yv, yd) = st.operand();
     let mut a = st.a.clone();
     if let YSpec::Target(k) = &st.y {
